@@ -54,6 +54,11 @@ type Scenario struct {
 	Packets     int    `json:"packets"`
 	KeepAlive   bool   `json:"keep_alive"` // stay long enough for keep-alives to be sent
 	Tunnel      string `json:"tunnel,omitempty"` // lib workload over tcp: "" | http | ws (RTSP over HTTP / WebSocket)
+	// HasBack / BackAt (lib workload, play): the stream's description also holds a back channel
+	// at this position; the client does not ask for back channels, so it must neither see it
+	// nor ever be connected to it by a SETUP.
+	HasBack bool `json:"has_back,omitempty"`
+	BackAt  int  `json:"back_at,omitempty"`
 
 	// camera workload: what the scripted server answers to DESCRIBE.
 	Controls    []string `json:"controls,omitempty"`     // per media; "" = no attribute
@@ -215,6 +220,10 @@ func gen(seed uint64, tier string) Scenario {
 		genCamera(r, &sc)
 	}
 
+	if x := core.HS(seed, "c20.back", "", 0); sc.Workload != "camera" && sc.Variant == "play" && x%100 < 12 {
+		sc.HasBack = true
+		sc.BackAt = int((x >> 8) % uint64(sc.Medias+1))
+	}
 	// the tunnels put the URL's path into a HTTP request line as well; hash-derived so that
 	// no other choice of the scenario moves
 	if sc.Workload != "camera" && sc.Transport == "tcp" {
@@ -410,6 +419,9 @@ func shrink(sc Scenario) []Scenario {
 	}
 	if sc.Tunnel != "" {
 		add(func(c *Scenario) { c.Tunnel = "" })
+	}
+	if sc.HasBack {
+		add(func(c *Scenario) { c.HasBack = false; c.BackAt = 0 })
 	}
 	if sc.SamePT {
 		add(func(c *Scenario) { c.SamePT = false })
